@@ -115,6 +115,29 @@ Theorem rfc3339_roundtrip : forall ts zone, zone_ok zone ->
 Proof. exact rfc3339_roundtrip_lemma. Qed.
 Print Assumptions rfc3339_roundtrip.
 
+(* JSON, whole streams: for every sequence of results in the representable domain (byte-valued
+   texts - every valid UTF-8 text is one; 64-bit counters, int64 latency, 16-bit code; local
+   dates 1970..2199 with nanoseconds and a whole-minute zone; byte-valued body; header maps with
+   distinct keys) the JSON encoder's output - fixed key order, string escaping, RFC 3339
+   timestamps, base64 bodies, null for absent body/headers - decodes with the independently
+   written reader of the documented layout to an equal sequence, then end-of-stream *)
+Theorem json_stream_roundtrip : forall rs, Forall jres_dom rs ->
+  exists rs', json_decode_all (flat_map json_encode rs) = Some rs' /\ Forall2 (fun a b => cres_equal a b = true) rs rs'.
+Proof. exact json_stream_roundtrip_lemma. Qed.
+Print Assumptions json_stream_roundtrip.
+
+Theorem json_record_roundtrip : forall r, jres_dom r ->
+  exists r', json_decode_line (json_line r) = Some r' /\ cres_equal r r' = true.
+Proof. exact json_record_roundtrip_lemma. Qed.
+
+Example json_domain_satisfiable :
+  let r := {| c_attack := [97;34;10;226;128;168]; c_seq := 18446744073709551615; c_code := 200; c_ts := 1600000000123456789; c_zone := -19800;
+              c_lat := -5; c_bout := 0; c_bin := 7; c_error := [60;62;38;92]; c_body := Some [0;255;10;13];
+              c_method := [71;69;84]; c_url := [104;116;116;112;58;47;47;120;47];
+              c_headers := Some [([67;45;84], [[116]]); ([88;45;65], [[49]; [50]])] |} in
+  option_map (cres_equal r) (json_decode_line (json_line r)) = Some true.
+Proof. vm_compute. reflexivity. Qed.
+
 Example csv_roundtrip_nontrivial :
   go_csv_records (concat (map write_record [[ [97; 34; 44; 10; 32]; []; [32; 98] ]; [[]; [34]] ])) =
   Some [[ [97; 34; 44; 10; 32]; []; [32; 98] ]; [[]; [34]] ].
